@@ -373,18 +373,21 @@ func forEachMediaRange(header []byte, functor func([]byte)) {
 			// Complex case. We need to keep track of quotes and quoted-pairs (i.e.,  characters escaped with \ )
 		loop:
 			for n < len(header) {
+				// a backslash inside a quoted string escapes the one character that follows it
+				escaped := escaping
+				escaping = false
 				switch header[n] {
 				case ',':
 					if quotes%2 == 0 {
 						break loop
 					}
 				case '"':
-					if !escaping {
+					if !escaped {
 						quotes++
 					}
 				case '\\':
-					if quotes%2 == 1 {
-						escaping = !escaping
+					if quotes%2 == 1 && !escaped {
+						escaping = true
 					}
 				}
 				n++
@@ -396,7 +399,12 @@ func forEachMediaRange(header []byte, functor func([]byte)) {
 			}
 		}
 
-		functor(header[:n])
+		// optional whitespace in front of the comma belongs to the list syntax, not to the range
+		mediaRange := header[:n]
+		for len(mediaRange) > 0 && (mediaRange[len(mediaRange)-1] == ' ' || mediaRange[len(mediaRange)-1] == '\t') {
+			mediaRange = mediaRange[:len(mediaRange)-1]
+		}
+		functor(mediaRange)
 
 		if n >= len(header) {
 			return
